@@ -138,15 +138,33 @@ package minersc
 //@ func (*MinerNodes).FindNodeById
 //@   trusted
 //@   modifies nothing
+// hasPrevSharderInList answers exactly whether some listed node is a sharder of the given magic block;
+// rankedPrevSharders returns listed nodes that are, and none only if none is listed. (C38: this is the
+// pair reduceShardersList uses to keep a sharder of the previous set.)
 //@ func hasPrevSharderInList
-//@   trusted
+//@   prop C38
+//@   ensures[exactly-when-one-is-listed] result <==> (exists k in 0..len(nodes) :: nodes[k].SimpleNode.ID in prevMB.Sharders.NodesMap)
 //@   modifies nothing
+//@   loop 1 header "for _, n := range nodes"
+//@   loop 1 invariant forall k in 0..$idx+1 :: !(nodes[k].SimpleNode.ID in prevMB.Sharders.NodesMap)
 //@ func rankedPrevSharders
-//@   trusted
+//@   prop C38
+//@   ensures[only-previous-sharders] forall k in 0..len(result) :: result[k].SimpleNode.ID in prevMB.Sharders.NodesMap
+//@   ensures[none-only-if-none-listed] len(result) == 0 ==> (forall k in 0..len(list) :: !(list[k].SimpleNode.ID in prevMB.Sharders.NodesMap))
+//@   ensures[none-if-none-listed] (forall k in 0..len(list) :: !(list[k].SimpleNode.ID in prevMB.Sharders.NodesMap)) ==> len(result) == 0
 //@   modifies nothing
+//@   loop 1 header "for _, node := range list"
+//@   loop 1 modifies prev[*]
+//@   loop 1 invariant len(prev) <= $idx + 1 && cap(prev) == len(list) && fresh(prev)
+//@   loop 1 invariant forall k in 0..len(prev) :: prev[k].SimpleNode.ID in prevMB.Sharders.NodesMap
+//@   loop 1 invariant len(prev) == 0 ==> (forall k in 0..$idx+1 :: !(list[k].SimpleNode.ID in prevMB.Sharders.NodesMap))
+//@   loop 1 invariant (forall k in 0..$idx+1 :: !(list[k].SimpleNode.ID in prevMB.Sharders.NodesMap)) ==> len(prev) == 0
 //@ func (*MinerSmartContract).reduceShardersList
-//@   prop C39
+//@   prop C39, C38
 //@   requires keep != nil && all != nil && gn != nil && balances != nil
+// (C38) when the selection dropped every sharder of the previous set, the best-ranked previous sharder
+// of the keep list is added back: that statement must not be dead code
+//@   reachable[adds-back-a-previous-sharder] "nodes = append(nodes, prev[0])"
 //@   opaque reduce
 //@   at-call reduce ghost $reduceCalls += 1
 //@   at-call reduce assert[limits-in-force-now] $arg1 == gn.MaxS && $arg2 == gn.XPercent
